@@ -20,22 +20,35 @@ Definition prim_ok (b : bundle) : Prop :=
 Definition man_ok (b : bundle) : Prop :=
   match b_manifest b with Some u => b_ver b = BV1 /\ utf8_valid u = true | None => True end.
 
+(* the URL tests of the writer (checkURL): every exchange URL without fragment /
+   credentials; the b2 primary URL and the manifest URL absolute as well *)
+Definition url_checks (b : bundle) : Prop :=
+  urls_ok b = true
+  /\ (match b_ver b, b_primary b with
+      | BV2, Some u => fst (abs_url_ok u) = true
+      | BV1, Some u => fst (any_url_ok u) = true        (* the header primary URL parses *)
+      | _, None => True end)
+  /\ (match b_manifest b with Some u => fst (abs_url_ok u) = true | None => True end).
+
 Theorem b_write_ok_iff (b : bundle) (bs : bytes) :
   b_write b = Ok bs <->
-  exists ts, headers_ok b = true /\ index_pres (b_ver b) (groups_of (ients_of b)) = Ok ts
+  exists ts, headers_ok b = true /\ url_checks b
+             /\ index_pres (b_ver b) (groups_of (ients_of b)) = Ok ts
              /\ prim_ok b /\ man_ok b /\ bs = final_bytes (b_ver b) (parsed_of b ts).
 Proof.
-  rewrite b_write_eq. unfold b_write_nf, prim_ok, man_ok. split.
+  rewrite b_write_eq. unfold b_write_nf, prim_ok, man_ok, url_checks. split.
   - intros H. destruct (headers_ok b); cbn [chk bind] in H; [|discriminate].
+    destruct (urls_ok b); cbn [chk bind] in H; [|discriminate].
     destruct (index_pres (b_ver b) (groups_of (ients_of b))) as [ts| | |]; cbn [bind] in H; try discriminate.
-    exists ts. split; [reflexivity|]. split; [reflexivity|].
+    exists ts. split; [reflexivity|].
     destruct (b_ver b); destruct (b_primary b) as [pu|]; destruct (b_manifest b) as [mu|];
-      try destruct (utf8_valid pu); try destruct (utf8_valid mu); cbn [chk bind] in H;
-      try discriminate; inversion H; auto.
-  - intros [ts [Hh [Ht [Hp [Hm E]]]]]. rewrite Hh, Ht. cbn [chk bind]. subst bs.
+      try destruct (fst (any_url_ok pu)); try destruct (fst (abs_url_ok pu)); try destruct (fst (abs_url_ok mu));
+      try destruct (utf8_valid pu); try destruct (utf8_valid mu); cbn [andb chk bind] in H;
+      try discriminate; inversion H; repeat split; auto.
+  - intros [ts [Hh [[Hu [Hpa Hma]] [Ht [Hp [Hm E]]]]]]. rewrite Hh, Hu, Ht. cbn [chk bind]. subst bs.
     destruct (b_ver b); destruct (b_primary b) as [pu|]; destruct (b_manifest b) as [mu|];
       try contradiction; try (destruct Hm as [Hv' Hm']; try discriminate);
-      rewrite ?Hp, ?Hm'; reflexivity.
+      rewrite ?Hpa, ?Hma, ?Hp, ?Hm'; reflexivity.
 Qed.
 
 Lemma headers_ok_rsp (b : bundle) :
@@ -232,7 +245,7 @@ Theorem write_wf (b : bundle) (bs : bytes) :
   exists ts, index_pres (b_ver b) (groups_of (ients_of b)) = Ok ts /\
              WF (b_ver b) bs (parsed_of b ts).
 Proof.
-  intros H W L Su. apply b_write_ok_iff in H. destruct H as [ts [Hh [Ht [Hp [Hm E]]]]].
+  intros H W L Su. apply b_write_ok_iff in H. destruct H as [ts [Hh [_ [Ht [Hp [Hm E]]]]]].
   exists ts. split; [exact Ht|].
   destruct (final_bytes_footer _ _ _ E L) as [Ef _].
   split; [exact W|]. split; [exact L|]. split; [exact Ef|].
